@@ -252,6 +252,12 @@ def run(ctx):
         d = deep_unhoist(S.norm(n["args"][4], e))
         deps.setdefault((H.last(fn), label), set()).add(S.show(d))
     pairs = [("Via", "Map"), ("Where", "Filter")]
+    # as long as the accounting differs between the forms, they agree only for recursions shallow enough for the costlier form:
+    # that threshold is the depth limit divided by the units the costlier form consumes per level - it must stay at the documented limit
+    from rules import c18 as c18_
+    lim_ = c18_.read_limit(core, [core, ctx.cli, ctx.wasm])
+    ctx.inst("C13.R4", "depth-limit#agreement-threshold", None if lim_ is None else lim_ >= 1000,
+             "call-depth limit %s: with unequal accounting the forms part ways beyond roughly limit/3 nested levels (a lower limit makes them disagree at ordinary depths)" % lim_, None)
     for opn, bin_ in pairs:
         a = deps.get(("evaluate_binary_op_ast", opn), set())
         b = deps.get(("call", bin_), set())
